@@ -97,6 +97,7 @@ theorem doLoads_no_crash (cfg : Cfg) (fs : FS) (rec : ParseFn)
             · intro h; cases h
             · exact ih _ _
           · exact ih _ _
+          · exact ih _ _
 
 theorem parseOne_no_crash (cfg : Cfg) (fs : FS) (fuel : Nat) (stack : List APath) (file spelled : APath) (st : PState) (site : String) :
     parseOne cfg fs fuel stack file spelled st ≠ .error (.crash site) := by
